@@ -8,6 +8,7 @@ import (
 	"sync"
 
 	corev1 "k8s.io/api/core/v1"
+	"k8s.io/pod-security-admission/api"
 	"k8s.io/pod-security-admission/policy"
 )
 
@@ -419,6 +420,48 @@ func runC13(c *Ctx) {
 		}
 	})
 	flush()
+	// the same texts where users see them: denial message, warning, audit annotation (policies whose modes coincide share
+	// one cached aggregate result, which is then formatted more than once)
+	k := AdmitKnobs{FaultPct: 0, SynPct: 0, SubPct: 0}
+	admitSweep(c, sizes(c, 1500, 30000), k, "allowed message warnings audit", "message warnings audit", func(a *AdmitCase, g AdmitOut) {
+		texts := []string{}
+		if g.Message != nil {
+			texts = append(texts, *g.Message)
+		}
+		if g.AnnAudit != nil {
+			texts = append(texts, *g.AnnAudit)
+		}
+		if a.Res != "namespaces" {
+			texts = append(texts, g.Warnings...)
+		}
+		for _, t := range texts {
+			if strings.Contains(t, policy.UnknownForbiddenReason) {
+				c.Violate(Finding{Desc: "placeholder reason in a user-facing message: " + t, Key: "placeholder-in-message", Input: a.opJSON()})
+			}
+			if i := strings.Index(t, `": `); i >= 0 {
+				c.Tag("c13.messageChecked")
+				if strings.Count(t, ") (") > 0 {
+					c.Violate(Finding{Desc: "a control's detail is repeated in a user-facing message: " + t, Key: "detail-repeated", Input: a.opJSON()})
+				}
+			}
+		}
+	}, func(r *Rng, a *AdmitCase) {
+		// make enforce / audit / warn coincide often
+		if a.Res != "namespaces" && r.Chance(2, 3) {
+			lv := pick(r, []string{"baseline", "restricted"})
+			v := pick(r, []string{"latest", "v1.25", "v1.0"})
+			a.NSLabels = map[string]string{api.EnforceLevelLabel: lv, api.EnforceVersionLabel: v}
+			if r.Bool() {
+				a.NSLabels[api.AuditLevelLabel], a.NSLabels[api.AuditVersionLabel] = lv, v
+			}
+			if r.Bool() {
+				a.NSLabels[api.WarnLevelLabel], a.NSLabels[api.WarnVersionLabel] = lv, v
+			}
+			if r.Chance(1, 3) {
+				a.NSLabels[api.EnforceLevelLabel] = "privileged"
+			}
+		}
+	})
 }
 
 // namesQuoted: `"name"` occurs in the text as a quoted list item (not inside an escaped or key="value" rendering).
